@@ -857,7 +857,9 @@ class Models:
                 if is_sym(x):
                     if ctx.branch(bv(x) < 0):
                         ctx.raise_builtin(ValueError, "negative count")
-                    x = ctx.choose(x, range(0, 65))
+                    # zero-filled buffer of symbolic length: no fork on the length
+                    zero = z3.K(z3.BitVecSort(W), z3.BitVecVal(0, 8))
+                    return LBytes(zero, 0, x, False)
                 if x < 0:
                     ctx.raise_builtin(ValueError, "negative count")
                 return SBytes([0] * x, False)
